@@ -32,9 +32,17 @@ import (
 //
 // The reference model (same Ref, same conservation probe, same Stats clause as the
 // single-node configuration) is the LOCAL node's pool: a subscriber is a live holder of
-// that pool from the moment the local node handed it an address until the local node is
-// asked to release it. A call that the local node forwards to a peer does not touch the
-// local pool and therefore not the reference (whether the routing is right is C17).
+// that pool from the moment the local node handed it an address until a Release for it is
+// ACCEPTED (returns nil) - wherever the cluster routed that Release: a subscriber that has
+// released holds nothing any more, so its address must be obtainable again and the figures
+// must say so. An Allocate that the local node forwards to a peer does not touch the local
+// pool and therefore not the reference (whether the routing is right is C17).
+//
+// Root cause coded from the execution (never from the trace text): routedAway records, at the
+// moment of an accepted Release, that the subscriber's address was (and stayed) in the local
+// node's table while the Release was served by ANOTHER node. A leak/miscount is tagged
+// "[cause=release-routed-away-from-holder ...]" only if it is exactly the set of such
+// addresses that are still in the table now; anything else stays untagged.
 type PeerClusterCfg struct {
 	Net, Gateway string
 	Nodes        []string // Nodes[0] = node under test
@@ -59,12 +67,14 @@ func (c PeerClusterCfg) String() string {
 type memNet struct {
 	h         map[string]http.Handler
 	down      map[string]bool
-	forwarded int // allocate/release requests the local node sent to a peer (attempts)
+	forwarded int    // allocate/release requests the local node sent to a peer (attempts)
+	lastHost  string // where the last of them went
 }
 
 func (m *memNet) RoundTrip(req *http.Request) (*http.Response, error) {
 	if strings.HasPrefix(req.URL.Path, "/pool/allocate") || strings.HasPrefix(req.URL.Path, "/pool/release/") {
 		m.forwarded++
+		m.lastHost = req.URL.Host
 	}
 	if err := req.Context().Err(); err != nil {
 		return nil, err
@@ -88,7 +98,9 @@ type peerClusterSys struct {
 	lh    http.Handler      // local node's peer API
 	id    map[string]string // holder -> subscriber id with the configured hash owner
 	gone  map[string]bool   // nodes removed from the local node's membership
-	bg    context.Context
+	// routedAway[h] = {address the local table held for h, node that served h's accepted Release instead}
+	routedAway map[string][2]string
+	bg         context.Context
 }
 
 func mkClusterNode(c PeerClusterCfg, id string) *pool.PeerPool {
@@ -124,7 +136,8 @@ func clusterIDs(c PeerClusterCfg, p *pool.PeerPool) map[string]string {
 func NewPeerCluster(cl Clauses, c PeerClusterCfg) explore.System {
 	s := &peerClusterSys{Ref: NewRef(cl, v4Usable(c.Net, 0, 0, c.Gateway)), c: c, local: c.Nodes[0],
 		nodes: map[string]*pool.PeerPool{}, net: &memNet{h: map[string]http.Handler{}, down: map[string]bool{}},
-		gone: map[string]bool{}, bg: context.Background()}
+		gone: map[string]bool{}, routedAway: map[string][2]string{}, bg: context.Background()}
+	s.Ref.Explain = s.explain
 	for _, n := range c.Nodes {
 		p := mkClusterNode(c, n)
 		mux := http.NewServeMux()
@@ -232,10 +245,20 @@ func (s *peerClusterSys) Apply(op string) string {
 		}
 		return s.OnAlloc("Allocate", a[0], ip, why)
 	case "Release":
+		id := s.id[a[0]]
 		before := s.net.forwarded
-		err := s.p.Release(s.bg, s.id[a[0]])
+		held, _ := s.p.VerifC05LocalAddr(id)
+		err := s.p.Release(s.bg, id)
 		if s.net.forwarded != before {
-			return fmt.Sprint("forwarded:", err)
+			if err != nil {
+				return fmt.Sprint("forwarded:", err) // not accepted: nothing ended
+			}
+			// accepted by the cluster: the subscriber's holding ends, wherever the Release was served
+			if now, still := s.p.VerifC05LocalAddr(id); still && now == held {
+				s.routedAway[a[0]] = [2]string{held, s.net.lastHost}
+			}
+			s.OnRelease(a[0])
+			return "forwarded:ok"
 		}
 		if err != nil && s.Cl.C05 {
 			s.V("release", "Release", "Release(%s): %v", a[0], err)
@@ -273,6 +296,46 @@ func (s *peerClusterSys) Apply(op string) string {
 	panic("unknown op " + op)
 }
 
+// stranded: addresses the local table still holds for a subscriber whose accepted Release was served by
+// another node (and that the subscriber has not been given again since), read from the real table now.
+func (s *peerClusterSys) stranded() (units, who []string) {
+	hs := make([]string, 0, len(s.routedAway))
+	for h := range s.routedAway {
+		hs = append(hs, h)
+	}
+	sort.Strings(hs)
+	for _, h := range hs {
+		ra := s.routedAway[h]
+		if _, live := s.Held[h]; live {
+			continue
+		}
+		if now, still := s.p.VerifC05LocalAddr(s.id[h]); still && now == ra[0] {
+			units = append(units, now)
+			who = append(who, fmt.Sprintf("%s=%s in the table of %s, Release served by %s", h, now, s.local, ra[1]))
+		}
+	}
+	sort.Strings(units)
+	return
+}
+
+func (s *peerClusterSys) cause(who []string) string {
+	return "[cause=release-routed-away-from-holder " + strings.Join(who, "; ") + "]"
+}
+
+// explain (Ref.Explain): a leak / a refusal with free units is exactly the stranded set.
+func (s *peerClusterSys) explain(kind string, units []string, delta int64) string {
+	if kind != "leak" && kind != "exhaustion" {
+		return ""
+	}
+	st, who := s.stranded()
+	u := append([]string(nil), units...)
+	sort.Strings(u)
+	if len(st) == 0 || strings.Join(u, ",") != strings.Join(st, ",") {
+		return ""
+	}
+	return s.cause(who)
+}
+
 func (s *peerClusterSys) Fingerprint() string {
 	var sb strings.Builder
 	names := append([]string(nil), s.c.Nodes...)
@@ -280,7 +343,7 @@ func (s *peerClusterSys) Fingerprint() string {
 	for _, n := range names {
 		fmt.Fprintf(&sb, "%s down=%v gone=%v %s|", n, s.net.down[n], s.gone[n], deepdump.Dump(s.nodes[n], deepdump.Options{SkipTypes: map[string]bool{"http.Client": true}}))
 	}
-	return sb.String() + s.Ref.String()
+	return sb.String() + s.Ref.String() + fmt.Sprint("|routedAway=", s.routedAway)
 }
 
 // probeAlloc: a fresh subscriber asks the local node for an address, through Allocate when the
@@ -295,6 +358,11 @@ func (s *peerClusterSys) probeAlloc(id string) string {
 }
 
 func (s *peerClusterSys) Check() []explore.Viol {
+	strandedUnits, strandedWho := s.stranded()
+	strandedUnit := map[string]bool{}
+	for _, u := range strandedUnits {
+		strandedUnit[u] = true
+	}
 	for _, h := range append(append([]string{}, s.c.Subs...), "nobody") {
 		id := s.id[h]
 		if id == "" {
@@ -307,6 +375,10 @@ func (s *peerClusterSys) Check() []explore.Viol {
 		}
 		// Get documents "for remote allocations we don't have the data locally": for a subscriber the
 		// local node does not own, "not found" is an allowed answer; an answer must be the truth.
+		// (a stranded address - see stranded() - is C05's finding: it is held by nobody, not by two)
+		if _, live := s.Held[h]; !live && strandedUnit[got] {
+			continue
+		}
 		if ok || s.p.IsLocalOwner(id) {
 			s.ExpectLookup("Get", h, got, ok)
 		}
@@ -318,7 +390,11 @@ func (s *peerClusterSys) Check() []explore.Viol {
 	got := s.Probe("Allocate", s.probeAlloc)
 	if s.Cl.C05 {
 		if st.Allocated != len(s.Held) || st.Available != len(got) || st.Total != st.Allocated+st.Available || st.Total != len(s.Usable) {
-			s.V("stats", "Stats", "Stats{Allocated:%d Available:%d Total:%d} of node %s, truth: %d held, %d obtainable, %d usable", st.Allocated, st.Available, st.Total, s.local, len(s.Held), len(got), len(s.Usable))
+			why := ""
+			if n := len(strandedUnits); n > 0 && st.Allocated == len(s.Held)+n && st.Available == len(got) && st.Total == len(s.Usable) && st.Total == st.Allocated+st.Available {
+				why = " " + s.cause(strandedWho) // the figures are off by exactly the stranded addresses, counted as allocated
+			}
+			s.V("stats", "Stats", "Stats{Allocated:%d Available:%d Total:%d} of node %s, truth: %d held, %d obtainable, %d usable%s", st.Allocated, st.Available, st.Total, s.local, len(s.Held), len(got), len(s.Usable), why)
 		}
 	}
 	return s.Viols
